@@ -676,6 +676,15 @@ class VerilogGenerator:
             else:
                 str += "wire {};\n".format(name)
                 
+        # the net of a gated clock is only named by its driver, it is produced
+        # by the GatedClock instance and has to be declared like any other net
+        gatedClockNames = []
+        for child in obj.children.values():
+            if (isinstance(child, GatedClock)):
+                if not(child.drv.name in gatedClockNames):
+                    gatedClockNames.append(child.drv.name)
+                    str += "wire {};\n".format(child.drv.name)
+                
         if (obj.isPropagatable()):
             # generate code from propagate function
             if (self.isProvidingBody(obj)):
